@@ -96,8 +96,33 @@ Definition close_downstream (l : link) (j : nat) : link :=
 Definition timer_due (now : Z) (tm : option Z) : bool :=
   match tm with Some dl => dl <=? now | None => false end.
 
-(** one enabled action of stub [i], if any *)
-Definition try_stub (l : link) (i : nat) : option link :=
+(** a timer of stub [i] that is due fires *)
+Definition stub_timer (l : link) (i : nat) : option link :=
+  match nth_error (l_stubs l) i with
+  | None => None
+  | Some s =>
+    match mode_of (s_st s) with
+    | MSelect _ _ tm =>
+      if timer_due (l_now l) tm
+      then Some (upd_stub l i (with_st s (on_timer (eff_tx s) (l_now l) (s_st s)))) else None
+    | _ => None
+    end
+  end.
+
+(** the 5 s give-up of WriteOutput (a distinct action so that theorems can exclude it) *)
+Definition stub_send_timeout (l : link) (i : nat) : option link :=
+  match nth_error (l_stubs l) i with
+  | None => None
+  | Some s =>
+    match mode_of (s_st s) with
+    | MSendT _ dl =>
+      if dl <=? l_now l then Some (upd_stub l i (with_st s (on_send_timeout (s_st s)))) else None
+    | _ => None
+    end
+  end.
+
+(** the channel action stub [i] can take: close its output, complete a send, receive *)
+Definition stub_move (l : link) (i : nat) : option link :=
   match nth_error (l_stubs l) i with
   | None => None
   | Some s =>
@@ -106,26 +131,25 @@ Definition try_stub (l : link) (i : nat) : option link :=
       let l1 := upd_stub l i (mkStub (s_tx s) (s_eff s) Exited (s_ps s) (s_inq s) (s_cap s)
                                      (s_in_closed s) true) in
       Some (close_downstream l1 (S i))
-    | MSend c =>
+    | MSend c | MSendT c _ =>
       match offer l (S i) c with
       | Some l1 => match nth_error (l_stubs l1) i with Some s1 => Some (stub_sent l1 i s1) | None => None end
       | None => None
       end
-    | MSendT c dl =>
-      match offer l (S i) c with
-      | Some l1 => match nth_error (l_stubs l1) i with Some s1 => Some (stub_sent l1 i s1) | None => None end
-      | None => if dl <=? l_now l then Some (upd_stub l i (with_st s (on_send_timeout (s_st s)))) else None
+    | MSelect true _ _ =>
+      match s_inq s with
+      | c :: q => Some (stub_input l i s (Some c) q)
+      | [] => if s_in_closed s then Some (stub_input l i s None []) else None
       end
-    | MSelect inp _ tm =>
-      if timer_due (l_now l) tm then Some (upd_stub l i (with_st s (on_timer (eff_tx s) (l_now l) (s_st s))))
-      else if inp then
-        match s_inq s with
-        | c :: q => Some (stub_input l i s (Some c) q)
-        | [] => if s_in_closed s then Some (stub_input l i s None []) else None
-        end
-      else None
-    | MExit | MDead => None
+    | _ => None
     end
+  end.
+
+(** one enabled action of stub [i], if any (channel actions before timers) *)
+Definition try_stub (l : link) (i : nat) : option link :=
+  match stub_move l i with
+  | Some l' => Some l'
+  | None => match stub_timer l i with Some l' => Some l' | None => stub_send_timeout l i end
   end.
 
 Fixpoint try_stubs (l : link) (k : nat) : option link :=   (* stubs k-1 down to 0 *)
@@ -226,6 +250,31 @@ Fixpoint mk_stubs (chain : list (toxic * bool)) (first : bool) (now : Z) : list 
 
 Definition link_init (chain : list (toxic * bool)) (src : list src_ev) (draws : list Z) : link :=
   mkLink 0 src [] RIdle (mk_stubs ((TNoop, true) :: chain) true 0) draws [] None 0 0.
+
+(** ---- all schedules: the same transitions, chosen by an arbitrary scheduler. [ATick] lets any
+    amount of time pass at any moment (real executions take time to compute), so every timed
+    execution of the real code is a schedule; [run_quiet] follows one particular schedule. *)
+Inductive act :=
+| AMove (i : nat)
+| ATimer (i : nat)
+| ASendTimeout (i : nat)
+| AReader
+| ATick (t : Z).
+
+Definition sched_step (l : link) (a : act) : option link :=
+  match a with
+  | AMove i => stub_move l i
+  | ATimer i => stub_timer l i
+  | ASendTimeout i => stub_send_timeout l i
+  | AReader => try_reader l
+  | ATick t => if l_now l <=? t then Some (set_now l t) else None
+  end.
+
+Fixpoint sched_run (l : link) (sigma : list act) : option link :=
+  match sigma with
+  | [] => Some l
+  | a :: r => match sched_step l a with Some l' => sched_run l' r | None => None end
+  end.
 
 Definition sink_trace (l : link) : list (Z * Z) := map (fun e => (fst e, zlen (snd e))) (rev (l_trace l)).
 Definition sink_bytes (l : link) : bytes := concat (map snd (rev (l_trace l))).
